@@ -1,18 +1,1164 @@
-//! C02 — (stub, under construction)
+//! C02 — shaping is total and yields well-formed glyph runs.
+//!
+//! Case = one font (real / real with faults confined to GSUB, GPOS, GDEF, kern, morx / small
+//! generated font with a hostile lookup program) x a handful of (text, script, language,
+//! features, tuple, kerning, direction, vertical) combinations. Every `map_glyphs`, `shape` and
+//! `glyph_positions` call runs under the panic / CPU-time / memory monitors; returned runs
+//! (`Ok(infos)` and the best-effort run of `Err((e, infos))`) are checked against the
+//! well-formedness invariants (a)-(e) of DESIGN.md §4 C02. Nothing else about values is judged.
 
 use super::Prop;
 use crate::rt::*;
+use crate::sfnt;
+use allsorts::binary::read::ReadScope;
+use allsorts::font::MatchingPresentation;
+use allsorts::font_data::FontData;
+use allsorts::glyph_position::{GlyphLayout, TextDirection};
+use allsorts::gpos::{Info, Placement};
+use allsorts::gsub::{FeatureInfo, FeatureMask, Features, GlyphOrigin, RawGlyph, RawGlyphFlags};
+use allsorts::tables::variable_fonts::fvar::FvarTable;
+use allsorts::tables::{F2Dot14, FontTableProvider};
+use allsorts::tinyvec::tiny_vec;
+use allsorts::Font;
+use std::cell::RefCell;
+use std::collections::{HashMap, HashSet};
+use std::rc::Rc;
 
-pub struct C02 {}
+#[path = "c02_text.rs"]
+mod text;
+#[path = "c02_walk.rs"]
+mod walk;
+#[path = "c02_lay.rs"]
+mod lay;
+#[path = "c02_morx.rs"]
+mod morx;
+
+use text::{t, tag_str, Fam, Sc, TextGen, EXTRA_TAGS, SCRIPTS};
+use walk::{Kind, Walked};
+
+const LAYOUT_TABLES: &[&str] = &["GSUB", "GPOS", "GDEF", "kern", "morx"];
+const DOTTED_CIRCLE: char = '\u{25CC}';
+
+struct Seed {
+    name: String,
+    data: Vec<u8>,
+    /// tables (independent parse) when the file is a plain sfnt / first member of a collection
+    tables: Option<sfnt::Font>,
+    aots: bool,
+    num_glyphs: u16,
+    axes: usize,
+    scripts: Vec<u32>,
+    langs: Vec<u32>,
+    features: Vec<u32>,
+    /// sample of characters the font maps (independent cmap reader)
+    chars: Vec<char>,
+    has_layout: bool,
+    walked: RefCell<HashMap<&'static str, Rc<Walked>>>,
+}
+
+pub struct C02 {
+    seeds: Vec<Seed>,
+    /// indices by group
+    big: Vec<usize>,
+    aots: Vec<usize>,
+    variable: Vec<usize>,
+    tg: TextGen,
+    miri: bool,
+}
+
+/// What a case shapes with.
+struct FontCase {
+    name: String,
+    bytes: Vec<u8>,
+    kind: &'static str,
+    wellformed: bool,
+    faults: Vec<String>,
+    program: Option<&'static str>,
+    num_glyphs: u16,
+    axes: usize,
+    scripts: Vec<u32>,
+    langs: Vec<u32>,
+    features: Vec<u32>,
+    chars: Vec<char>,
+    /// characters that map to the glyphs the generated lookups talk about
+    hot_chars: Vec<char>,
+    aots: bool,
+}
+
+fn first_member(data: &[u8]) -> Option<sfnt::Font> {
+    let offs = sfnt::Font::member_offsets(data)?;
+    let f = sfnt::Font::parse_at(data, *offs.first()?)?;
+    match f.version {
+        0x0001_0000 | 0x4F54_544F | 0x7472_7565 => Some(f),
+        _ => None,
+    }
+}
+
+fn cmap_sample(f: &sfnt::Font, max: usize) -> Vec<char> {
+    let cmap = match f.gets("cmap") {
+        Some(c) => c,
+        None => return Vec::new(),
+    };
+    let recs = match sfnt::cmap::read_records(cmap) {
+        Some(r) => r,
+        None => return Vec::new(),
+    };
+    let (i, kind) = match sfnt::cmap::select(&recs) {
+        Some(x) => x,
+        None => return Vec::new(),
+    };
+    if kind != sfnt::cmap::EncKind::Unicode {
+        return Vec::new();
+    }
+    let all = sfnt::cmap::enumerate(cmap, recs[i].offset as usize).unwrap_or_default();
+    let stride = (all.len() / max.max(1)).max(1);
+    all.iter().step_by(stride).filter_map(|(c, _)| char::from_u32(*c)).collect()
+}
 
 impl C02 {
-    pub fn new(_cx: &mut Ctx) -> C02 {
-        C02 {}
+    pub fn new(cx: &mut Ctx) -> C02 {
+        let miri = cfg!(miri) || cx.mode == "tiny";
+        let max = if miri {
+            6_000
+        } else if cx.quick() {
+            700_000
+        } else {
+            4_000_000
+        };
+        let mut seeds = Vec::new();
+        for f in load_seed_fonts(max, true) {
+            let aots = f.name.contains("aots");
+            if miri && !aots {
+                continue;
+            }
+            let tables = first_member(&f.data);
+            let mut s = Seed {
+                name: f.name,
+                data: f.data,
+                tables: None,
+                aots,
+                num_glyphs: 0,
+                axes: 0,
+                scripts: Vec::new(),
+                langs: Vec::new(),
+                features: Vec::new(),
+                chars: Vec::new(),
+                has_layout: false,
+                walked: RefCell::new(HashMap::new()),
+            };
+            if let Some(tb) = tables {
+                s.num_glyphs = tb.gets("maxp").and_then(sfnt::tables::maxp_num_glyphs).unwrap_or(0);
+                s.axes = tb.gets("fvar").and_then(|d| sfnt::be16(d, 8)).unwrap_or(0) as usize;
+                s.has_layout = LAYOUT_TABLES.iter().any(|t| tb.gets(t).is_some());
+                for tname in ["GSUB", "GPOS"] {
+                    if let Some(d) = tb.gets(tname) {
+                        // tags only (cheap); the full walk happens lazily when a fault is placed
+                        let w = walk::walk_tags(d);
+                        for x in w.scripts {
+                            if !s.scripts.contains(&x) {
+                                s.scripts.push(x);
+                            }
+                        }
+                        for x in w.langs {
+                            if !s.langs.contains(&x) {
+                                s.langs.push(x);
+                            }
+                        }
+                        for x in w.features {
+                            if !s.features.contains(&x) {
+                                s.features.push(x);
+                            }
+                        }
+                    }
+                }
+                s.chars = cmap_sample(&tb, 300);
+                s.tables = Some(tb);
+            }
+            seeds.push(s);
+        }
+        let big: Vec<usize> = (0..seeds.len()).filter(|&i| !seeds[i].aots && (seeds[i].has_layout || seeds[i].tables.is_none())).collect();
+        let aots: Vec<usize> = (0..seeds.len()).filter(|&i| seeds[i].aots && seeds[i].has_layout).collect();
+        let variable: Vec<usize> = (0..seeds.len()).filter(|&i| seeds[i].axes > 0 && seeds[i].has_layout).collect();
+        let tg = TextGen::new(cx.quick() || miri);
+        if tg.words_loaded() == 0 {
+            cx.inconclusive("no-word-lists");
+        }
+        C02 { seeds, big, aots, variable, tg, miri }
+    }
+
+    fn walked(&self, si: usize, tname: &'static str) -> Option<Rc<Walked>> {
+        let s = &self.seeds[si];
+        if let Some(w) = s.walked.borrow().get(tname) {
+            return Some(w.clone());
+        }
+        let d = s.tables.as_ref()?.gets(tname)?;
+        let w = Rc::new(walk::walk(tname, d));
+        s.walked.borrow_mut().insert(tname, w.clone());
+        Some(w)
+    }
+
+    fn pick_seed(&self, rng: &mut Rng, need_tables: bool) -> Option<usize> {
+        for _ in 0..20 {
+            let i = if self.miri {
+                *rng.pick(&self.aots)
+            } else {
+                match rng.below(10) {
+                    0..=5 if !self.big.is_empty() => *rng.pick(&self.big),
+                    6 if !self.variable.is_empty() => *rng.pick(&self.variable),
+                    _ if !self.aots.is_empty() => *rng.pick(&self.aots),
+                    _ => rng.below(self.seeds.len()),
+                }
+            };
+            if !need_tables || (self.seeds[i].tables.is_some() && self.seeds[i].has_layout) {
+                return Some(i);
+            }
+        }
+        None
+    }
+
+    fn case_from_seed(&self, si: usize) -> FontCase {
+        let s = &self.seeds[si];
+        FontCase {
+            name: s.name.clone(),
+            bytes: Vec::new(),
+            kind: "real-clean",
+            wellformed: s.tables.is_some() && s.num_glyphs > 0,
+            faults: Vec::new(),
+            program: None,
+            num_glyphs: s.num_glyphs,
+            axes: s.axes,
+            scripts: s.scripts.clone(),
+            langs: s.langs.clone(),
+            features: s.features.clone(),
+            chars: s.chars.clone(),
+            hot_chars: Vec::new(),
+            aots: s.aots,
+        }
+    }
+}
+
+// ---------------------------------------------------------------------------------------------
+// fault injection confined to the layout tables
+// ---------------------------------------------------------------------------------------------
+
+fn boundary16(rng: &mut Rng, old: u16, len: usize, num_glyphs: u16, kind: Kind) -> u16 {
+    let l = len as u32;
+    match rng.below(14) {
+        0 => 0,
+        1 => 1,
+        2 => 0x7FFF,
+        3 => 0x8000,
+        4 => 0xFFFF,
+        5 => l.wrapping_sub(1) as u16,
+        6 => l.wrapping_add(1) as u16,
+        7 => l as u16,
+        8 => old.wrapping_add(1),
+        9 => old.wrapping_sub(1),
+        10 => match kind {
+            Kind::Glyph => *rng.pick(&[num_glyphs, num_glyphs.wrapping_sub(1), num_glyphs.wrapping_add(1)]),
+            Kind::Count => *rng.pick(&[old.wrapping_mul(2), old.wrapping_add(2), 0xFFFE]),
+            Kind::Offset => *rng.pick(&[2u16, 4, 6, old.wrapping_add(2), old.wrapping_sub(2), l.wrapping_sub(2) as u16, l.wrapping_sub(4) as u16]),
+            Kind::Class | Kind::Index => *rng.pick(&[old.wrapping_add(2), 0xFFFE, 2, 3]),
+            Kind::Format => *rng.pick(&[2u16, 3, 4, 5, 6, 7, 8, 9]),
+            _ => rng.u16(),
+        },
+        11 => rng.below(len.max(1)) as u16,
+        _ => rng.u16(),
+    }
+}
+
+/// Applies one fault to `data` (a layout table); returns (kind, description).
+fn fault_table(rng: &mut Rng, tname: &str, data: &mut Vec<u8>, w: &Walked, num_glyphs: u16) -> (String, String) {
+    let len = data.len();
+    if len == 0 {
+        return ("none".into(), "empty table".into());
+    }
+    let choice = rng.below(20);
+    if choice < 13 && !w.sites.is_empty() {
+        // field fault at a located site, biased towards deep structures
+        let mut s = *rng.pick(&w.sites);
+        for _ in 0..2 {
+            let s2 = *rng.pick(&w.sites);
+            if s2.depth > s.depth && rng.chance(2, 3) {
+                s = s2;
+            }
+        }
+        let at = s.at as usize;
+        if at + s.w as usize > len {
+            return ("none".into(), "site beyond (already truncated) table".into());
+        }
+        if s.kind == Kind::Offset && rng.chance(1, 4) {
+            // offset confusion: copy the value of another offset field (points at a structure of another type)
+            let others: Vec<&walk::Site> = w.sites.iter().filter(|o| o.kind == Kind::Offset && o.w == s.w && o.at != s.at && (o.at as usize + o.w as usize) <= len).collect();
+            if !others.is_empty() {
+                let o = *rng.pick(&others);
+                let v: Vec<u8> = data[o.at as usize..o.at as usize + o.w as usize].to_vec();
+                data[at..at + s.w as usize].copy_from_slice(&v);
+                return ("offset-confusion".into(), format!("{} {}@{} := value of {}@{}", tname, s.what, at, o.what, o.at));
+            }
+        }
+        if s.w == 2 {
+            let old = u16::from_be_bytes([data[at], data[at + 1]]);
+            let v = boundary16(rng, old, len, num_glyphs, s.kind);
+            data[at..at + 2].copy_from_slice(&v.to_be_bytes());
+            (format!("field-{}", s.kind.name()), format!("{} {}@{} (depth {}) {:#06x} -> {:#06x}", tname, s.what, at, s.depth, old, v))
+        } else {
+            let old = u32::from_be_bytes([data[at], data[at + 1], data[at + 2], data[at + 3]]);
+            let v = match rng.below(10) {
+                0 => 0,
+                1 => 1,
+                2 => 0x7FFF_FFFF,
+                3 => 0x8000_0000,
+                4 => 0xFFFF_FFFF,
+                5 => len as u32 - 1,
+                6 => len as u32 + 1,
+                7 => old.wrapping_add(1),
+                8 => old.wrapping_sub(1),
+                _ => rng.below(len + 2) as u32,
+            };
+            data[at..at + 4].copy_from_slice(&v.to_be_bytes());
+            (format!("field32-{}", s.kind.name()), format!("{} {}@{} (depth {}) {:#x} -> {:#x}", tname, s.what, at, s.depth, old, v))
+        }
+    } else if choice < 15 {
+        // byte fault, next to a located site when there is one
+        let at = if !w.sites.is_empty() && rng.bool() { (rng.pick(&w.sites).at as usize + rng.below(4)).min(len - 1) } else { rng.below(len) };
+        let v = match rng.below(5) {
+            0 => 0,
+            1 => 0xFF,
+            2 => 0x7F,
+            3 => 0x80,
+            _ => rng.u8(),
+        };
+        let old = data[at];
+        data[at] = v;
+        ("byte".into(), format!("{} byte@{} {:#04x} -> {:#04x}", tname, at, old, v))
+    } else if choice < 17 {
+        let n = 1 + rng.below(8);
+        let mut d = Vec::new();
+        for _ in 0..n {
+            let at = rng.below(len);
+            data[at] = rng.u8();
+            d.push(at);
+        }
+        ("random-bytes".into(), format!("{} random bytes at {:?}", tname, d))
+    } else if choice < 19 {
+        // table length -1 / -k / at a structure start
+        let cut = match rng.below(4) {
+            0 => len - 1,
+            1 => len.saturating_sub(1 + rng.below(8)),
+            2 if !w.starts.is_empty() => (*rng.pick(&w.starts) as usize + rng.below(3)).min(len),
+            _ => rng.below(len),
+        };
+        data.truncate(cut);
+        ("truncate".into(), format!("{} truncated {} -> {}", tname, len, cut))
+    } else {
+        // table length +1..+3
+        let n = 1 + rng.below(3);
+        for _ in 0..n {
+            data.push(rng.u8());
+        }
+        ("extend".into(), format!("{} extended by {}", tname, n))
+    }
+}
+
+// ---------------------------------------------------------------------------------------------
+// generated fonts
+// ---------------------------------------------------------------------------------------------
+
+fn fam_features(fam: Fam) -> (&'static [&'static [u8; 4]], &'static [&'static [u8; 4]]) {
+    // (GSUB features the shaper applies, GPOS features it applies)
+    match fam {
+        Fam::Arabic => (&[b"ccmp", b"locl", b"isol", b"fina", b"medi", b"init", b"rlig", b"calt", b"liga", b"mset", b"rclt"], &[b"curs", b"kern", b"mark", b"mkmk"]),
+        Fam::Syriac => (&[b"ccmp", b"locl", b"isol", b"fina", b"fin2", b"fin3", b"medi", b"med2", b"init", b"rlig", b"calt", b"liga"], &[b"curs", b"kern", b"mark", b"mkmk"]),
+        Fam::Indic => (
+            &[
+                b"locl", b"ccmp", b"nukt", b"akhn", b"rphf", b"rkrf", b"pref", b"blwf", b"abvf", b"half", b"pstf", b"vatu", b"cjct", b"cfar", b"init", b"pres", b"abvs", b"blws",
+                b"psts", b"haln", b"calt", b"clig",
+            ],
+            &[b"abvm", b"blwm", b"dist", b"kern", b"mark", b"mkmk"],
+        ),
+        Fam::Khmer => (&[b"locl", b"ccmp", b"pref", b"blwf", b"abvf", b"pstf", b"cfar", b"pres", b"abvs", b"blws", b"psts", b"clig", b"calt", b"liga"], &[b"abvm", b"blwm", b"dist", b"mark", b"mkmk"]),
+        Fam::Myanmar => (&[b"locl", b"ccmp", b"rphf", b"pref", b"blwf", b"pstf", b"pres", b"abvs", b"blws", b"psts", b"liga", b"clig", b"calt", b"rlig"], &[b"dist", b"abvm", b"blwm", b"mark", b"mkmk", b"kern"]),
+        Fam::Thai | Fam::Lao => (&[b"ccmp", b"locl", b"liga", b"clig", b"calt", b"rlig"], &[b"kern", b"mark", b"mkmk"]),
+        Fam::Latin | Fam::Hebrew => (
+            &[b"ccmp", b"locl", b"rlig", b"liga", b"clig", b"calt", b"frac", b"numr", b"dnom", b"afrc", b"smcp", b"c2sc", b"onum", b"lnum", b"zero", b"dlig", b"vert", b"vrt2", b"rvrn"],
+            &[b"dist", b"kern", b"mark", b"mkmk", b"curs"],
+        ),
+    }
+}
+
+fn block_of(s: &Sc) -> (u32, u32) {
+    match s.fam {
+        Fam::Arabic => (0x600, 0x6FF),
+        Fam::Syriac => (0x700, 0x74F),
+        Fam::Indic => (s.base, s.base + 0x7F),
+        Fam::Khmer => (0x1780, 0x17FF),
+        Fam::Myanmar => (0x1000, 0x109F),
+        Fam::Thai => (0xE00, 0xE7F),
+        Fam::Lao => (0xE80, 0xEFF),
+        Fam::Latin => (0xA0, 0x17F),
+        Fam::Hebrew => (0x590, 0x5FF),
+    }
+}
+
+impl C02 {
+    fn gen_font(&self, cx: &mut Ctx, rng: &mut Rng, probe: bool) -> Option<FontCase> {
+        let sc = if probe { &SCRIPTS[16] } else { &SCRIPTS[rng.below(SCRIPTS.len())] };
+        let n: u16 = *rng.pick(&[24u16, 60, 130, 300, 700]);
+        // cmap: ASCII, the script's block, a few specials
+        let mut map = sfnt::cmap::Map::new();
+        let mut next = 1u32;
+        let mut add = |map: &mut sfnt::cmap::Map, c: u32| {
+            let g = 1 + (next - 1) % (n as u32 - 1);
+            next += 1;
+            map.insert(c, g as u16);
+        };
+        for c in 0x20..0x7F {
+            add(&mut map, c);
+        }
+        let (lo, hi) = block_of(sc);
+        for c in lo..=hi {
+            add(&mut map, c);
+        }
+        for c in [0x200C, 0x200D, 0x034F, 0x0300, 0x0301, 0x2044] {
+            add(&mut map, c);
+        }
+        if rng.chance(3, 4) {
+            add(&mut map, 0x25CC);
+        }
+        // hot characters: a few the text generator produces for this script + a few Latin ones
+        let mut hot_chars: Vec<char> = Vec::new();
+        let nh = 4 + rng.below(8);
+        let mut guard = 0;
+        while hot_chars.len() < nh && guard < 200 {
+            guard += 1;
+            let c = match rng.below(8) {
+                0 | 1 => self.tg.mark(rng, sc),
+                2 => *rng.pick(&['a', 'f', 'i', '1', '/', '2', ' ']),
+                3 => *rng.pick(&['\u{200D}', '\u{200C}', '\u{25CC}']),
+                _ => self.tg.base(rng, sc),
+            };
+            if map.contains_key(&(c as u32)) && !hot_chars.contains(&c) {
+                hot_chars.push(c);
+            }
+        }
+        if hot_chars.is_empty() {
+            cx.inconclusive("generator:no-hot-chars");
+            return None;
+        }
+        let hot: Vec<u16> = lay::cov_order(&hot_chars.iter().map(|c| map[&(*c as u32)]).collect::<Vec<_>>());
+        let marks: Vec<u16> = hot.iter().copied().filter(|_| rng.chance(1, 3)).collect();
+        let kind = *rng.pick(lay::PROGRAMS);
+        let mut sinks: Vec<u16> = Vec::new();
+        for g in (1..n).rev() {
+            if !hot.contains(&g) && sinks.len() < 3 {
+                sinks.push(g);
+            }
+        }
+        if sinks.is_empty() {
+            sinks.push(0);
+        }
+        let kind = if probe { "grow-probe" } else { kind };
+        let mut pool = lay::Pool { hot, marks, sinks, n, wild: rng.chance(1, 3) && kind != "grow-probe", wrote_oob: false };
+        let prog = lay::gen_program(rng, &mut pool, kind, 64);
+        // features: every feature of the script family gets a few lookups; entry lookups are
+        // guaranteed a feature
+        let (gsub_feats, gpos_feats) = fam_features(sc.fam);
+        let assign = |rng: &mut Rng, tags: &[&[u8; 4]], nlookups: usize, entry: &[u16], exclusive: &[u16]| -> Vec<(u32, Vec<u16>)> {
+            let mut feats: Vec<(u32, Vec<u16>)> = Vec::new();
+            if nlookups == 0 {
+                return feats;
+            }
+            for tg in tags {
+                if rng.chance(2, 3) {
+                    let k = rng.below(3);
+                    let lks: Vec<u16> = (0..k).map(|_| rng.below(nlookups) as u16).filter(|l| !exclusive.contains(l)).collect();
+                    feats.push((t(tg), lks));
+                }
+            }
+            if feats.is_empty() {
+                feats.push((t(tags[0]), Vec::new()));
+            }
+            for &e in entry {
+                let i = rng.below(feats.len());
+                feats[i].1.push(e);
+                if rng.chance(1, 3) && !exclusive.contains(&e) {
+                    let j = rng.below(feats.len());
+                    feats[j].1.push(e);
+                }
+            }
+            feats
+        };
+        let gsub_features = assign(rng, gsub_feats, prog.gsub.len(), &prog.gsub_entry, &prog.exclusive);
+        let gpos_features = assign(rng, gpos_feats, prog.gpos.len(), &prog.gpos_entry, &[]);
+        let script_tags: Vec<u32> = {
+            let mut v = vec![sc.tag];
+            if rng.chance(1, 3) {
+                v.push(t(b"DFLT"));
+            }
+            if sc.fam == Fam::Indic && rng.chance(1, 3) {
+                // the "version 2" tag of the same script
+                for x in EXTRA_TAGS.iter().take(10) {
+                    if text::script_for_tag(t(x)).map(|s| s.tag) == Some(sc.tag) {
+                        v.push(t(x));
+                    }
+                }
+            }
+            v
+        };
+        let lang = if rng.chance(1, 3) { Some(t(*rng.pick(&[b"URD ", b"SND ", b"MAR ", b"NEP ", b"ROM ", b"TRK ", b"dflt"]))) } else { None };
+        let mk_scripts = |nfeat: usize, rng: &mut Rng| -> Vec<lay::ScriptDef> {
+            script_tags
+                .iter()
+                .map(|&tag| {
+                    let all: Vec<u16> = (0..nfeat as u16).collect();
+                    let mut langs = vec![(None, all.clone())];
+                    if let Some(l) = lang {
+                        langs.push((Some(l), all.iter().copied().filter(|_| rng.chance(2, 3)).collect()));
+                    }
+                    lay::ScriptDef { tag, langs }
+                })
+                .collect()
+        };
+        let mut f = sfnt::tables::minimal_font(Vec::new(), n, Some(0x20));
+        let groups = sfnt::cmap::groups12(&map, rng);
+        let sub = sfnt::cmap::write_format12(&groups, 0);
+        f.sets("cmap", sfnt::cmap::write_cmap(&[sfnt::cmap::Record { platform: 3, encoding: 10, subtable: 0 }], &[sub]));
+        let use_morx = kind == "mixed" && rng.chance(1, 3);
+        if use_morx {
+            // no GSUB: allsorts then applies morx
+            f.sets("morx", morx::gen_morx(rng, &pool.hot, n, pool.wild));
+        } else if !prog.gsub.is_empty() {
+            let sd = mk_scripts(gsub_features.len(), rng);
+            match lay::layout_table(&sd, &gsub_features, &prog.gsub, false) {
+                Some(tb) => f.sets("GSUB", tb),
+                None => {
+                    cx.inconclusive("generator:table-too-big");
+                    return None;
+                }
+            }
+        }
+        if !prog.gpos.is_empty() {
+            let sd = mk_scripts(gpos_features.len(), rng);
+            match lay::layout_table(&sd, &gpos_features, &prog.gpos, true) {
+                Some(tb) => f.sets("GPOS", tb),
+                None => {
+                    cx.inconclusive("generator:table-too-big");
+                    return None;
+                }
+            }
+        } else if rng.chance(1, 2) {
+            f.sets("kern", morx::gen_kern(rng, &pool.hot, n, pool.wild));
+        }
+        if rng.chance(4, 5) {
+            f.sets("GDEF", lay::gdef(rng, &pool, &[]));
+        }
+        let mut features: Vec<u32> = gsub_features.iter().map(|x| x.0).collect();
+        features.extend(gpos_features.iter().map(|x| x.0));
+        if probe {
+            // only the features that carry the growth passes
+            features = gsub_features.iter().filter(|f| f.1.iter().any(|l| prog.exclusive.contains(l))).map(|x| x.0).collect();
+        }
+        let chars: Vec<char> = map.keys().filter_map(|c| char::from_u32(*c)).collect();
+        Some(FontCase {
+            name: format!("generated:{}:{}", sc.name, kind),
+            bytes: f.build(),
+            kind: "generated",
+            wellformed: !pool.wrote_oob && !use_morx,
+            faults: Vec::new(),
+            program: Some(if use_morx { "morx" } else { kind }),
+            num_glyphs: n,
+            axes: 0,
+            scripts: script_tags,
+            langs: lang.into_iter().collect(),
+            features,
+            chars,
+            hot_chars,
+            aots: false,
+        })
+    }
+}
+
+// ---------------------------------------------------------------------------------------------
+// per-call parameters
+// ---------------------------------------------------------------------------------------------
+
+const KNOWN_FEATURES: &[&[u8; 4]] = &[
+    b"aalt", b"salt", b"ss01", b"ss02", b"cv01", b"swsh", b"titl", b"nalt", b"hist", b"liga", b"dlig", b"calt", b"kern", b"mark", b"mkmk", b"curs", b"frac", b"numr", b"dnom", b"smcp", b"vert",
+    b"vrt2", b"fina", b"init", b"medi", b"isol", b"rvrn", b"locl", b"ccmp", b"rlig", b"sups", b"subs", b"ordn", b"zero", b"case", b"cpsp", b"rphf", b"half", b"pres", b"abvm", b"blwm", b"dist",
+];
+
+fn gen_features(rng: &mut Rng, fc: &FontCase, cx: &mut Ctx) -> Features {
+    if rng.chance(3, 5) {
+        cx.class("features:mask");
+        let all = FeatureMask::all().bits();
+        let bits = match rng.below(10) {
+            0 | 1 => FeatureMask::default().bits(),
+            2 => all,
+            3 => 0,
+            4 => FeatureMask::default().bits() | FeatureMask::FRAC.bits(),
+            5 => rng.u64() & rng.u64() & all,
+            6 => (rng.u64() | rng.u64()) & all,
+            7 => (1u64 << rng.below(46)) & all,
+            _ => rng.u64() & all,
+        };
+        let m = FeatureMask::from_bits_truncate(bits);
+        if m.contains(FeatureMask::FRAC) {
+            cx.class("features:mask-frac");
+        }
+        Features::Mask(m)
+    } else {
+        cx.class("features:custom");
+        let n = rng.small(10);
+        let mut v = Vec::new();
+        for _ in 0..n {
+            let feature_tag = match rng.below(10) {
+                0..=5 if !fc.features.is_empty() => *rng.pick(&fc.features),
+                6 | 7 | 8 => t(*rng.pick(KNOWN_FEATURES)),
+                _ => rng.u32(),
+            };
+            let alternate = match rng.below(10) {
+                0..=4 => None,
+                5..=7 => Some(rng.below(5)),
+                8 => Some(rng.below(70000)),
+                _ => Some(usize::MAX),
+            };
+            if alternate.is_some() {
+                cx.class("features:custom-alternate");
+            }
+            v.push(FeatureInfo { feature_tag, alternate });
+        }
+        Features::Custom(v)
+    }
+}
+
+fn tuple_values(rng: &mut Rng, axes: usize, cx: &mut Ctx) -> Vec<F2Dot14> {
+    let mut out_of_range = false;
+    let v = (0..axes)
+        .map(|_| {
+            let raw: i16 = match rng.below(12) {
+                0 | 1 => 0,
+                2 => 16384,
+                3 => -16384,
+                4 => 1,
+                5 => -1,
+                6 if rng.chance(1, 4) => {
+                    out_of_range = true;
+                    *rng.pick(&[i16::MAX, i16::MIN, 16385, -16385])
+                }
+                _ => rng.range(-16384, 16384) as i16,
+            };
+            F2Dot14::from_raw(raw)
+        })
+        .collect();
+    if out_of_range {
+        cx.class("tuple:out-of-range-value");
+    }
+    v
+}
+
+fn chars_hex(cs: &[char]) -> String {
+    cs.iter().map(|c| format!("{:04X}", *c as u32)).collect::<Vec<_>>().join(" ")
+}
+
+struct Call {
+    text: Vec<char>,
+    script: u32,
+    lang: Option<u32>,
+    features: Features,
+    tuple: Option<Vec<F2Dot14>>,
+    kerning: bool,
+    rtl: bool,
+    vertical: bool,
+    presentation_required: bool,
+    direct: bool,
+}
+
+impl Call {
+    fn json(&self, fc: &FontCase) -> J {
+        J::obj(vec![
+            ("font", J::s(fc.name.clone())),
+            ("font_kind", J::s(fc.kind)),
+            ("faults", J::A(fc.faults.iter().map(|f| J::s(f.clone())).collect())),
+            ("program", fc.program.map_or(J::Null, J::s)),
+            ("text", J::s(chars_hex(&self.text))),
+            ("script", J::s(tag_str(self.script))),
+            ("lang", self.lang.map_or(J::Null, |l| J::s(tag_str(l)))),
+            ("features", J::s(format!("{:?}", self.features).chars().take(400).collect::<String>())),
+            ("tuple", self.tuple.as_ref().map_or(J::Null, |t| J::s(format!("{:?}", t)))),
+            ("kerning", J::Bool(self.kerning)),
+            ("rtl", J::Bool(self.rtl)),
+            ("vertical", J::Bool(self.vertical)),
+            ("direct_glyph_run", J::Bool(self.direct)),
+        ])
+    }
+}
+
+impl C02 {
+    fn gen_call(&self, cx: &mut Ctx, rng: &mut Rng, fc: &FontCase) -> Call {
+        // script tag
+        let script = match rng.below(20) {
+            0..=12 if !fc.scripts.is_empty() => *rng.pick(&fc.scripts),
+            13 | 14 | 15 => SCRIPTS[rng.below(SCRIPTS.len())].tag,
+            16 | 17 => t(*rng.pick(EXTRA_TAGS)),
+            18 => rng.u32(),
+            _ => {
+                if fc.scripts.is_empty() {
+                    t(b"latn")
+                } else {
+                    *rng.pick(&fc.scripts)
+                }
+            }
+        };
+        // the script whose text is generated: usually the one the tag selects, sometimes not
+        let tag_sc = text::script_for_tag(script);
+        let text_sc: &Sc = match tag_sc {
+            Some(s) if !rng.chance(1, 7) => s,
+            _ => {
+                cx.class("script-text-mismatch");
+                &SCRIPTS[rng.below(SCRIPTS.len())]
+            }
+        };
+        let mut text = if rng.chance(1, 25) {
+            cx.class("text:arbitrary-code-points");
+            self.tg.gen_arbitrary(rng)
+        } else {
+            self.tg.gen(rng, text_sc)
+        };
+        // mix in characters the font maps / the generated lookups talk about
+        let pool: &[char] = if !fc.hot_chars.is_empty() { &fc.hot_chars } else { &fc.chars };
+        let mix = if !fc.hot_chars.is_empty() {
+            rng.chance(4, 5)
+        } else if fc.aots {
+            rng.chance(5, 6)
+        } else {
+            rng.chance(1, 4)
+        };
+        if mix && !pool.is_empty() && !text.is_empty() {
+            let dense = rng.bool();
+            for i in 0..text.len() {
+                if rng.chance(if dense { 3 } else { 1 }, 4) {
+                    text[i] = *rng.pick(pool);
+                }
+            }
+            cx.class("text:font-characters-mixed-in");
+        } else if mix && !pool.is_empty() && rng.bool() {
+            text.push(*rng.pick(pool));
+        }
+        let features = gen_features(rng, fc, cx);
+        if let Features::Mask(m) = &features {
+            if m.contains(FeatureMask::FRAC) && rng.chance(1, 2) {
+                let at = rng.below(text.len() + 1);
+                let pat: Vec<char> = rng.pick(&["1/2", "3/45", "12/3", "1/2/3", "/1", "1/"]).chars().collect();
+                for (k, c) in pat.iter().enumerate() {
+                    text.insert(at + k, *c);
+                }
+                text.truncate(64);
+                cx.class("text:fraction-pattern");
+            }
+        }
+        let lang = match rng.below(10) {
+            0..=4 => None,
+            5 | 6 | 7 if !fc.langs.is_empty() => Some(*rng.pick(&fc.langs)),
+            8 => Some(t(*rng.pick(&[b"URD ", b"ARA ", b"HIN ", b"MAR ", b"ENG ", b"TRK ", b"dflt", b"DFLT", b"ZHS ", b"\0\0\0\0"]))),
+            _ => Some(rng.u32()),
+        };
+        let tuple = if fc.axes > 0 && rng.chance(3, 4) { Some(tuple_values(rng, fc.axes, cx)) } else { None };
+        if fc.program == Some("grow-probe") && !fc.hot_chars.is_empty() && !fc.scripts.is_empty() {
+            // the growth probe: as many growing glyphs as a 64-character text can hold, all features on
+            return Call {
+                text: (0..64).map(|_| *rng.pick(&fc.hot_chars)).collect(),
+                script: fc.scripts[0],
+                lang: None,
+                features: Features::Custom(fc.features.iter().map(|&feature_tag| FeatureInfo { feature_tag, alternate: None }).collect()),
+                tuple: None,
+                kerning: false,
+                rtl: false,
+                vertical: false,
+                presentation_required: false,
+                direct: false,
+            };
+        }
+        Call {
+            text,
+            script,
+            lang,
+            features,
+            tuple,
+            kerning: rng.bool(),
+            rtl: rng.bool(),
+            vertical: rng.chance(1, 3),
+            presentation_required: rng.chance(1, 5),
+            direct: fc.aots && fc.num_glyphs > 0 && rng.chance(1, 4),
+        }
+    }
+}
+
+fn placement_kind(p: &Placement) -> Option<(&'static str, usize)> {
+    match p {
+        Placement::None | Placement::Distance(..) => None,
+        Placement::MarkAnchor(i, _, _) => Some(("MarkAnchor", *i)),
+        Placement::MarkOverprint(i) => Some(("MarkOverprint", *i)),
+        Placement::CursiveAnchor(i, _, _, _) => Some(("CursiveAnchor", *i)),
+    }
+}
+
+/// Invariants (a)-(c) on a returned run. `err_run` = the best-effort run of `Err((e, infos))`.
+fn check_run(cx: &mut Ctx, fc: &FontCase, call: &Call, infos: &[Info], submitted: &HashSet<char>, err_run: bool) {
+    let prefix = if err_run { "err-run:" } else { "" };
+    let mut reported = [false; 3];
+    for (i, info) in infos.iter().enumerate() {
+        if let Some((kind, idx)) = placement_kind(&info.placement) {
+            cx.class(match kind {
+                "MarkAnchor" => "placement:mark-anchor",
+                "MarkOverprint" => "placement:mark-overprint",
+                _ => "placement:cursive-anchor",
+            });
+            if idx >= infos.len() && !reported[0] {
+                reported[0] = true;
+                let mut d = vec![("call", call.json(fc))];
+                d.push(("position", J::U(i as u64)));
+                d.push(("attachment_index", J::U(idx as u64)));
+                d.push(("run_len", J::U(infos.len() as u64)));
+                cx.violation(if err_run { "inv-e-err-run" } else { "inv-a-attachment" }, &format!("{}attachment-index-outside-run:{}", prefix, kind), J::obj(d));
+            }
+        }
+        if !reported[1] {
+            for c in info.glyph.unicodes.iter() {
+                if *c != DOTTED_CIRCLE && !submitted.contains(c) {
+                    reported[1] = true;
+                    let d = vec![
+                        ("call", call.json(fc)),
+                        ("position", J::U(i as u64)),
+                        ("foreign_char", J::s(format!("{:04X}", *c as u32))),
+                        ("glyph", J::s(format!("{:?}", info.glyph).chars().take(300).collect::<String>())),
+                    ];
+                    cx.violation(if err_run { "inv-e-err-run" } else { "inv-b-unicodes" }, &format!("{}char-not-in-submitted-run", prefix), J::obj(d));
+                    break;
+                }
+            }
+        }
+        if fc.wellformed && info.glyph.glyph_index >= fc.num_glyphs && !reported[2] {
+            reported[2] = true;
+            let d = vec![("call", call.json(fc)), ("position", J::U(i as u64)), ("glyph_index", J::U(info.glyph.glyph_index as u64)), ("num_glyphs", J::U(fc.num_glyphs as u64))];
+            cx.violation(if err_run { "inv-e-err-run" } else { "inv-c-glyph-range" }, &format!("{}glyph-id-beyond-glyph-count", prefix), J::obj(d));
+        }
+    }
+}
+
+impl C02 {
+    fn run_font(&self, cx: &mut Ctx, rng: &mut Rng, fc: &FontCase, ncalls: usize) {
+        let len = fc.bytes.len();
+        let fd = match ReadScope::new(&fc.bytes).read::<FontData<'_>>() {
+            Ok(f) => f,
+            Err(_) => {
+                cx.class("font-not-loadable");
+                return;
+            }
+        };
+        let provider = match fd.table_provider(0) {
+            Ok(p) => p,
+            Err(_) => {
+                cx.class("font-not-loadable");
+                return;
+            }
+        };
+        let font = match cx.guard("Font::new", len, || Font::new(provider)) {
+            Some(Ok(f)) => f,
+            _ => {
+                cx.class("font-not-loadable");
+                return;
+            }
+        };
+        let mut font = font;
+        cx.class(&format!("font:{}", fc.kind));
+        if let (Ok(path), true) = (std::env::var("C02_DUMP_FONT"), fc.program.is_some()) {
+            let _ = std::fs::write(path, &fc.bytes);
+        }
+        if let Some(p) = fc.program {
+            cx.class(&format!("prog:{}", p));
+        }
+        // fvar for tuples (never faulted here)
+        let fvar_data = if fc.axes > 0 { font.font_table_provider.read_table_data(allsorts::tag::FVAR).ok().map(|c| c.into_owned()) } else { None };
+        for _ in 0..ncalls {
+            let call = self.gen_call(cx, rng, fc);
+            self.run_call(cx, &mut font, fc, &call, fvar_data.as_deref(), rng);
+        }
+    }
+
+    fn run_call<T: FontTableProvider>(&self, cx: &mut Ctx, font: &mut Font<T>, fc: &FontCase, call: &Call, fvar_data: Option<&[u8]>, rng: &mut Rng) {
+        let len = fc.bytes.len() + call.text.len();
+        let text_s: String = call.text.iter().collect();
+        let mp = if call.presentation_required { MatchingPresentation::Required } else { MatchingPresentation::NotRequired };
+        let script = call.script;
+        cx.class("calls");
+        if cx.verbose {
+            eprintln!("CALL {}", call.json(fc).to_string());
+        }
+        // ---- map_glyphs ----
+        let glyphs: Vec<RawGlyph<()>> = if call.direct {
+            cx.class("direct-glyph-run");
+            call.text
+                .iter()
+                .map(|&ch| RawGlyph {
+                    unicodes: tiny_vec![[char; 1] => ch],
+                    glyph_index: rng.below(fc.num_glyphs as usize) as u16,
+                    liga_component_pos: 0,
+                    glyph_origin: GlyphOrigin::Char(ch),
+                    flags: RawGlyphFlags::empty(),
+                    extra_data: (),
+                    variation: None,
+                })
+                .collect()
+        } else {
+            match cx.guard("map_glyphs", len, || font.map_glyphs(&text_s, script, mp)) {
+                Some(g) => g,
+                None => return,
+            }
+        };
+        let mut submitted: HashSet<char> = HashSet::new();
+        for g in &glyphs {
+            submitted.extend(g.unicodes.iter().copied());
+        }
+        if !call.direct {
+            // map_glyphs itself: every glyph carries characters of the (preprocessed) text; checked
+            // loosely here (C17 judges preprocessing): at most the text's characters + dotted circle
+            if glyphs.iter().any(|g| g.unicodes.is_empty()) {
+                cx.class("map_glyphs:glyph-without-unicodes");
+            }
+        }
+        let before: Vec<u16> = glyphs.iter().map(|g| g.glyph_index).collect();
+        // ---- tuple ----
+        let owned;
+        let tuple = match (&call.tuple, fvar_data) {
+            (Some(vals), Some(fd)) => match ReadScope::new(fd).read::<FvarTable<'_>>() {
+                Ok(fvar) => match fvar.owned_tuple(vals) {
+                    Some(t) => {
+                        owned = t;
+                        cx.class("tuple:used");
+                        Some(owned.as_tuple())
+                    }
+                    None => {
+                        cx.class("tuple:axis-count-mismatch");
+                        None
+                    }
+                },
+                Err(_) => None,
+            },
+            _ => None,
+        };
+        // ---- shape ----
+        let shape_guard = if fc.program == Some("grow-probe") { "shape:growth-probe" } else { "shape" };
+        let r = cx.guard(shape_guard, len, || font.shape(glyphs, script, call.lang, &call.features, tuple, call.kerning));
+        let (infos, was_err) = match r {
+            None => return,
+            Some(Ok(i)) => {
+                cx.class("shape:ok");
+                (i, false)
+            }
+            Some(Err((e, i))) => {
+                cx.class("shape:err-with-best-effort-run");
+                cx.class(&format!("shape-error:{}", normalise_digits(&format!("{:?}", e)).chars().take(40).collect::<String>()));
+                (i, true)
+            }
+        };
+        check_run(cx, fc, call, &infos, &submitted, was_err);
+        // ---- glyph_positions ----
+        let dir = if call.rtl { TextDirection::RightToLeft } else { TextDirection::LeftToRight };
+        let vertical = call.vertical;
+        if fc.program == Some("grow-probe") {
+            // the probe is about the growth of the run only
+            cx.class_n("growth-probe:glyphs-out", infos.len() as u64);
+            cx.class_n("growth-probe:glyphs-in", before.len() as u64);
+            return;
+        }
+        let pos = cx.guard("glyph_positions", len, || GlyphLayout::new(font, &infos, dir, vertical).glyph_positions());
+        match pos {
+            None => {}
+            Some(Ok(v)) => {
+                cx.class("glyph_positions:ok");
+                if v.len() != infos.len() {
+                    cx.violation(
+                        "inv-d-positions-len",
+                        "positions-length-differs-from-run",
+                        J::obj(vec![("call", call.json(fc)), ("positions", J::U(v.len() as u64)), ("run_len", J::U(infos.len() as u64))]),
+                    );
+                }
+            }
+            Some(Err(_)) => cx.class("glyph_positions:err"),
+        }
+        // ---- classes / non-triviality ----
+        let sname = text::script_for_tag(script).map_or("other", |s| s.name);
+        cx.class(&format!("script:{}", sname));
+        if call.rtl {
+            cx.class("direction:rtl");
+        }
+        if call.vertical {
+            cx.class("vertical");
+        }
+        if call.text.is_empty() {
+            cx.class("text:empty");
+        }
+        if call.text.len() == 1 {
+            cx.class("text:one-char");
+        }
+        let after: Vec<u16> = infos.iter().map(|i| i.glyph.glyph_index).collect();
+        let mut changed = false;
+        if after.len() != before.len() {
+            cx.class(if after.len() > before.len() { "changed:run-grew" } else { "changed:run-shrank" });
+            changed = true;
+        } else if after != before {
+            let mut a = after.clone();
+            let mut b = before.clone();
+            a.sort();
+            b.sort();
+            cx.class(if a == b { "changed:reordered" } else { "changed:substituted" });
+            changed = true;
+        }
+        if !submitted.contains(&DOTTED_CIRCLE) && infos.iter().any(|i| i.glyph.unicodes.contains(&DOTTED_CIRCLE)) {
+            cx.class("changed:dotted-circle-inserted");
+            changed = true;
+        }
+        if infos.iter().any(|i| i.placement != Placement::None) {
+            changed = true;
+            if infos.iter().any(|i| matches!(i.placement, Placement::Distance(..))) {
+                cx.class("placement:distance");
+            }
+        }
+        if infos.iter().any(|i| i.kerning != 0) {
+            cx.class("kerning-nonzero");
+        }
+        if infos.len() > 1000 {
+            cx.class("run>1000-glyphs");
+        }
+        if changed {
+            cx.class(&format!("nontrivial:{}", fc.kind));
+            if was_err {
+                cx.class("nontrivial:err-run");
+            }
+            let h = mix(mix(hash_str(&fc.name), hash_str(&fc.faults.join("|"))), mix(hash_str(&text_s), mix(script as u64, hash_str(&format!("{:?}{:?}", call.features, call.lang)))));
+            cx.nontrivial(h);
+            if cx.want_sample() && rng.chance(1, 50) {
+                cx.sample(J::obj(vec![("call", call.json(fc)), ("run_in", J::U(before.len() as u64)), ("run_out", J::U(after.len() as u64)), ("shape_err", J::Bool(was_err))]));
+            }
+        }
     }
 }
 
 impl Prop for C02 {
-    fn case(&mut self, cx: &mut Ctx, _rng: &mut Rng) {
-        cx.inconclusive("not-implemented");
+    fn exhaustive(&mut self, cx: &mut Ctx, shard: u64, of: u64) {
+        // every clean seed font once with its own scripts (so that each shaper is reached in every run)
+        if self.miri {
+            return;
+        }
+        let mut rng = Rng::new(0xC02);
+        if shard == 0 && cx.mode != "noprobe" {
+            // the growth probe (one per run): two passes of a multiple substitution that maps every
+            // glyph of a 64-character text to ~31 glyphs
+            cx.case_seed = 0xFFFD_0000;
+            cx.evals += 1;
+            let mut r = Rng::new(0xC02_0001);
+            if let Some(fc) = self.gen_font(cx, &mut r, true) {
+                self.run_font(cx, &mut r, &fc, 1);
+            }
+        }
+        for si in 0..self.seeds.len() {
+            if si as u64 % of != shard || !self.seeds[si].has_layout || (self.seeds[si].aots && si % 8 != 0) {
+                continue;
+            }
+            cx.case_seed = 0xFFFE_0000 + si as u64;
+            cx.evals += 1;
+            let mut fc = self.case_from_seed(si);
+            fc.bytes = self.seeds[si].data.clone();
+            let mut r = rng.fork();
+            self.run_font(cx, &mut r, &fc, 3);
+        }
+    }
+
+    fn case(&mut self, cx: &mut Ctx, rng: &mut Rng) {
+        if self.seeds.is_empty() {
+            cx.inconclusive("no-seed-fonts");
+            return;
+        }
+        let ncalls = if self.miri { 2 } else { 2 + rng.below(6) };
+        let which = if self.miri { rng.below(70) } else { rng.below(100) };
+        let fc = if which < 25 {
+            // (i) real font, unfaulted
+            let si = match self.pick_seed(rng, false) {
+                Some(i) => i,
+                None => return cx.inconclusive("no-seed-font"),
+            };
+            let mut fc = self.case_from_seed(si);
+            fc.bytes = self.seeds[si].data.clone();
+            fc
+        } else if which < 70 {
+            // (ii) real font, faults confined to the layout tables
+            let si = match self.pick_seed(rng, true) {
+                Some(i) => i,
+                None => return cx.inconclusive("no-seed-font-with-layout-tables"),
+            };
+            let mut fc = self.case_from_seed(si);
+            let mut tables = match self.seeds[si].tables.clone() {
+                Some(t) => t,
+                None => return cx.inconclusive("seed-without-tables"),
+            };
+            let present: Vec<&'static str> = LAYOUT_TABLES.iter().copied().filter(|t| tables.gets(t).is_some()).collect();
+            let nf = 1 + rng.small(3);
+            for _ in 0..nf {
+                let tname = *rng.pick(&present);
+                let tname = if rng.chance(1, 2) && present.contains(&"GSUB") { "GSUB" } else { tname };
+                let w = match self.walked(si, tname) {
+                    Some(w) => w,
+                    None => continue,
+                };
+                let mut d = tables.gets(tname).map(|d| d.to_vec()).unwrap_or_default();
+                let (kind, desc) = fault_table(rng, tname, &mut d, &w, fc.num_glyphs);
+                tables.sets(tname, d);
+                cx.class(&format!("fault:{}", kind));
+                cx.class(&format!("fault-table:{}", tname));
+                if desc.contains("(depth ") {
+                    let depth: usize = desc.split("(depth ").nth(1).and_then(|s| s.split(')').next()).and_then(|s| s.parse().ok()).unwrap_or(0);
+                    if depth >= 4 {
+                        cx.class("fault-depth>=4");
+                    }
+                    if depth >= 6 {
+                        cx.class("fault-depth>=6");
+                    }
+                }
+                fc.faults.push(desc);
+            }
+            fc.kind = "real-faulted";
+            fc.wellformed = false;
+            fc.bytes = tables.build();
+            fc
+        } else {
+            // (iii) generated font with a hostile lookup program, a third of them faulted as well
+            let mut fc = match self.gen_font(cx, rng, false) {
+                Some(f) => f,
+                None => return,
+            };
+            if rng.chance(1, 3) {
+                if let Some(mut tables) = sfnt::Font::parse(&fc.bytes) {
+                    let present: Vec<&'static str> = LAYOUT_TABLES.iter().copied().filter(|t| tables.gets(t).is_some()).collect();
+                    if !present.is_empty() {
+                        for _ in 0..1 + rng.small(2) {
+                            let tname = *rng.pick(&present);
+                            let mut d = tables.gets(tname).map(|d| d.to_vec()).unwrap_or_default();
+                            let w = walk::walk(tname, &d);
+                            let (kind, desc) = fault_table(rng, tname, &mut d, &w, fc.num_glyphs);
+                            tables.sets(tname, d);
+                            cx.class(&format!("fault:{}", kind));
+                            cx.class(&format!("fault-table:{}", tname));
+                            fc.faults.push(desc);
+                        }
+                        fc.kind = "generated-faulted";
+                        fc.wellformed = false;
+                        fc.bytes = tables.build();
+                    }
+                }
+            }
+            fc
+        };
+        self.run_font(cx, rng, &fc, ncalls);
     }
 }
